@@ -379,8 +379,8 @@ def run_check(pid, rep, cap=None):
     for r in rejects:
         _, stid, clause, prop, ctx = r[:5]
         tid, j = stid // 100, stid % 100
-        law, cls, rp, lab, dist, decade, field = ctx
-        where = {"law": law, "class": cls, "rep": rp, "obs_class": lab, "dist": dist, "decade": decade, "field": field}
+        law, cls, rp, lab, dist, decade, field, mindec = ctx
+        where = {"law": law, "class": cls, "rep": rp, "obs_class": lab, "dist": dist, "decade": decade, "field": field, "min_decade": mindec}
         ev = details.get(tid, {})
         what = f"{law} {cls}/{rp} observer {j} ({lab}, {dist}) decade {decade} field {field}: {clause}"
         sub = ev.get("obs", [None] * j)[j - 1] if j else ev.get("mesh")
